@@ -103,7 +103,16 @@ def run(tier, corrupt=False):
         from ..specgen import lib_files
         from ..gen import generate, write_tree
         ntree = 0
-        for rule, what, files in TREE_CATALOGUE + TREE_VALID:
+        # every single-file declaration-level violation is also tried in the other package directories (a check that lapses in a
+        # second file, or only outside net/, is the kind of change the property's "wherever it occurs" is about)
+        catalogue = list(TREE_CATALOGUE)
+        for rule, what, files in TREE_CATALOGUE:
+            if len(files) == 1 and "<packet" not in next(iter(files.values())) and "library type" not in what:
+                (d0, body), = files.items()
+                for d in ("net", "map", "pub", "pub/server", "net/client", ""):
+                    if d != d0:
+                        catalogue.append((rule, f"{what} (in {d or 'the root file'})", {d: body}))
+        for rule, what, files in catalogue + TREE_VALID:
             root = tmp / f"tree{ntree}"
             ntree += 1
             fs = lib_files()
@@ -121,7 +130,7 @@ def run(tier, corrupt=False):
     cov = {"states": r.distinct, "transitions": r.generated, "traces_validated_against_impl": n + ntree,
            "programs_from_specgen": len(allp), "ill_formed": len(bad), "well_formed": len(good), "rule_counts": rules,
            "single_rule_programs": sum(1 for p in bad if len(p["violations"]) == 1), "core_deep_programs_enumerated": len(core),
-           "declaration_catalogue": len(TREE_CATALOGUE), "well_formed_but_rejected_by_generator": valid_rejected[:10],
+           "declaration_catalogue": ntree - len(TREE_VALID), "well_formed_but_rejected_by_generator": valid_rejected[:10],
            "samples": [{"violations": bad[0]["violations"], "xml": _oneline(bad[0]["code"])}, {"violations": bad[-1]["violations"], "xml": _oneline(bad[-1]["code"])}],
            "exhaustive": tier == "quick",
            "explanation": "every program SpecGen can build with <= 2 (3) instructions at nesting depth <= 2 from 18 valid and 11 violating templates, "
